@@ -49,7 +49,8 @@ Fixpoint parked (ls : list layer) (ds : list dentry) (env : list req) (r : req) 
     | Some d =>
       match nth_error ds d with
       | None => parked rest ds env r
-      | Some e => snd (deliver d e env r)
+      | Some e => if C10.refused (d_st e) (C10.mkreq (q_cseq r) (q_id r) (is_ack r)) then parked rest ds env r
+                  else snd (deliver d e env r)
       end
     end
   end.
@@ -67,6 +68,7 @@ Proof.
         change (Offer i (q_id r) :: evs) with ([Offer i (q_id r)] ++ evs). rewrite finals_app. exact IH.
     + destruct (q_dlg r) as [d|]; [|apply IH].
       destruct (nth_error ds d) as [e|]; [|apply IH].
+      destruct (C10.refused (d_st e) (C10.mkreq (q_cseq r) (q_id r) (is_ack r))); [apply IH|].
       destruct (deliver d e env r) as [[e' reqs] pk] eqn:Ed. cbn [snd].
       destruct pk.
       * (* parked: no request is handed on *)
@@ -163,6 +165,7 @@ Proof.
       right. split; [reflexivity|]. exists []. split; [reflexivity|]. intros r' [].
     + destruct (q_dlg r) as [d|]; [|apply IH].
       destruct (nth_error ds d) as [e|] eqn:En; [|apply IH].
+      destruct (C10.refused (d_st e) (C10.mkreq (q_cseq r) (q_id r) (is_ack r))); [apply IH|].
       destruct (deliver d e env r) as [[e' reqs] pk] eqn:Ed. cbn [snd].
       destruct (deliver_shape _ _ _ _ _ _ _ Ed) as [[-> ->]|(-> & rel & -> & Hrel)]; [now left|].
       right. split; [reflexivity|]. exists rel. split; [reflexivity|].
@@ -280,6 +283,7 @@ Proof.
       { intros H. apply IH in H. lia. }
       destruct (q_dlg r) as [d|]; [|exact Hrest].
       destruct (nth_error ds d) as [e|]; [|exact Hrest].
+      destruct (C10.refused (d_st e) (C10.mkreq (q_cseq r) (q_id r) (is_ack r))); [exact Hrest|].
       destruct (deliver d e env r) as [[e' reqs] pk]. cbn [snd]. destruct pk; [cbn; tauto|].
       rewrite offer_indices_flat. intros [].
 Qed.
@@ -298,6 +302,7 @@ Proof.
         constructor; [exact Hs|]. apply Forall_forall. intros j Hj. apply Hb in Hj. lia.
     + destruct (q_dlg r) as [d|]; [|apply IH].
       destruct (nth_error ds d) as [e|]; [|apply IH].
+      destruct (C10.refused (d_st e) (C10.mkreq (q_cseq r) (q_id r) (is_ack r))); [apply IH|].
       destruct (deliver d e env r) as [[e' reqs] pk]. cbn [snd]. destruct pk; [constructor|].
       rewrite offer_indices_flat. constructor.
 Qed.
